@@ -26,6 +26,8 @@ pub struct Cfg {
     pub max_align: usize,
     pub retries: u8,
     pub magic: u16,
+    /// file backend only: offset of the mapping inside the file (a multiple of the page size)
+    pub offset: u64,
 }
 
 pub fn freelist_of(k: u8) -> Freelist {
@@ -50,7 +52,7 @@ impl Cfg {
             "sync": self.sync,
             "backend": match self.backend { Backend::Vec => "vec", Backend::Anon => "anon", Backend::File => "file" },
             "unify": self.unify, "freelist": self.freelist, "cap": self.cap, "reserved": self.reserved,
-            "min_seg": self.min_seg, "max_align": self.max_align, "retries": self.retries, "magic": self.magic,
+            "min_seg": self.min_seg, "max_align": self.max_align, "retries": self.retries, "magic": self.magic, "offset": self.offset,
         })
     }
 
@@ -70,10 +72,20 @@ impl Cfg {
             max_align: v.get("max_align")?.as_u64()? as usize,
             retries: v.get("retries")?.as_u64()? as u8,
             magic: v.get("magic")?.as_u64()? as u16,
+            offset: v.get("offset").and_then(|x| x.as_u64()).unwrap_or(0),
         })
     }
 
     pub fn options(&self) -> Options {
+        let o = self.options_no_offset();
+        if self.backend == Backend::File && self.offset > 0 {
+            o.with_offset(self.offset)
+        } else {
+            o
+        }
+    }
+
+    fn options_no_offset(&self) -> Options {
         Options::new()
             .with_capacity(self.cap)
             .with_reserved(self.reserved)
@@ -110,6 +122,7 @@ impl Cfg {
             max_align: *rng.pick(&[1usize, 8, 8, 16, 64]),
             retries: rng.range(1, 5) as u8,
             magic: *rng.pick(&[0u16, 0, 1, 0xBEEF]),
+            offset: 0,
         }
     }
 }
@@ -223,7 +236,32 @@ pub fn build<A: Ar>(cfg: &Cfg, path: Option<&Path>) -> Result<A, BuildErr> {
         Backend::File => {
             let p = path.expect("file backend needs a path");
             let _ = std::fs::remove_file(p);
-            unsafe { opts.with_create_new(true).with_read(true).with_write(true).map_mut::<A, _>(p) }.map_err(BuildErr::Io)
+            // both entry points are used (chosen by the configuration, so that replays agree)
+            let via_builder = (cfg.cap ^ cfg.reserved) % 3 == 0;
+            open_file::<A>(opts.with_create_new(true).with_read(true).with_write(true), 0, p, via_builder).map_err(BuildErr::Io)
+        }
+    }
+}
+
+/// Opens a file-backed arena through one of the eight public entry points:
+/// mode 0 map_mut, 1 map_copy, 2 map, 3 map_copy_read_only; `via_builder` selects the `*_with_path_builder` variant.
+pub fn open_file<A: Ar>(opts: Options, mode: u8, path: &Path, via_builder: bool) -> std::io::Result<A> {
+    use rarena_allocator::either::Either;
+    let flat = |e: Either<std::io::Error, std::io::Error>| match e {
+        Either::Left(e) | Either::Right(e) => e,
+    };
+    let pb = || Ok::<std::path::PathBuf, std::io::Error>(path.to_path_buf());
+    unsafe {
+        match (mode % 4, via_builder) {
+            (0, false) => opts.map_mut::<A, _>(path),
+            (1, false) => opts.map_copy::<A, _>(path),
+            (2, false) => opts.map::<A, _>(path),
+            (3, false) => opts.map_copy_read_only::<A, _>(path),
+            (0, true) => opts.map_mut_with_path_builder::<A, _, std::io::Error>(pb).map_err(flat),
+            (1, true) => opts.map_copy_with_path_builder::<A, _, std::io::Error>(pb).map_err(flat),
+            (2, true) => opts.map_with_path_builder::<A, _, std::io::Error>(pb).map_err(flat),
+            (_, true) => opts.map_copy_read_only_with_path_builder::<A, _, std::io::Error>(pb).map_err(flat),
+            _ => unreachable!(),
         }
     }
 }
